@@ -79,7 +79,7 @@ def run(ctx):
             fin += ctx._absorb_collected(r, crash_key_prefix='treebuilder:refusal-mid-carry:')
     if want('leak'):
         obs = []
-        for r in _collect(ctx, exe, [['leak', s + 2000 + i, n_leak] for i in range(4)]):
+        for r in _collect(ctx, exe, [['leak', s + 2000 + i, n_leak] for i in range(4)] + [['leak2', s + 2100 + i, n_leak] for i in range(4)] + [['leak3', s + 2200 + i, n_leak] for i in range(2)]):
             need += 1
             err = r['err']
             if r['rc'] not in (0, None) and 'LeakSanitizer' in err and 'ERROR: AddressSanitizer' not in err and 'runtime error' not in err:
